@@ -39,9 +39,10 @@ func TestVerifC13(t *testing.T) {
 			c13TaskPoolOverflowOrder(m)
 		}
 		c13TaskPoolStress(m)
+		c13TaskPoolFreshKeyHerd(m)
 		m.Require("a_ctl_schedules", "a_ctl_claim_cas_won", "a_ctl_claim_cas_lost", "a_ctl_recycled_channel_reused", "a_ctl_queue_recreated",
 			"a_hook_utp1", "a_hook_utp2", "a_hook_utp3", "a_hook_utp4", "a_hook_utp5", "a_hook_utp6", "a_hook_utp7", "a_ovf_spilled_while_convoy_between_channel_and_overflow",
-			"a_stress_tasks", "a_stress_queue_recreations", "a_stress_overflow_mode_observed")
+			"a_stress_tasks", "a_stress_queue_recreations", "a_stress_overflow_mode_observed", "a_herd_quiescent_checks")
 	}
 	if want("b") {
 		c13EndpointHerd(m)
